@@ -92,3 +92,18 @@ type Outcome struct {
 
 // ErrUnsupported marks constructs outside the interpreter's subset.
 var ErrUnsupported = errors.New("wprog: unsupported construct")
+
+// Err returns an error wrapping ErrUnsupported if the interpreter left the
+// subset (step budget, construct outside the subset, shapes for which wuffs-c
+// emits invalid C), nil otherwise.
+func (o *Outcome) Err() error {
+	if o == nil || o.Unsupported == "" {
+		return nil
+	}
+	return &unsupportedError{o.Unsupported}
+}
+
+type unsupportedError struct{ msg string }
+
+func (e *unsupportedError) Error() string { return "wprog: unsupported construct: " + e.msg }
+func (e *unsupportedError) Unwrap() error { return ErrUnsupported }
